@@ -13,6 +13,7 @@
 From Coq Require Import ZArith List Reals.
 From Pymoto Require Import Base.Num Base.SparseLin Base.FEMat Model.Grid Model.Shape Model.ElemMat Model.Assembly.
 From Pymoto Require Import Proofs.GridP Proofs.ShapeP Proofs.ElemMatP Proofs.AssemblyP.
+From Pymoto Require Import Base.CplxNum Model.AsmHist Proofs.AsmHistP.
 Import ListNotations.
 Open Scope R_scope.
 
@@ -265,6 +266,73 @@ Theorem C08_poisson_linear_energy_3d :
     = mp * (hx * hy * hz) * (gx * gx + gy * gy + gz * gz) * nsum x.
 Proof. exact poisson3_global_linear_energy. Qed.
 Print Assumptions C08_poisson_linear_energy_3d.
+
+(* ------------------------------------------------------------------ several modules on one domain; histories *)
+(* Model/AsmHist.v: _prepare stores the index arrays and options on the module (the domain is only read), _response
+   reads them and the current x.  `arun g astate0 ops` are the matrices observed during the history `ops`
+   (ANew options | ASetX x | AResp i) of modules that share one DomainDefinition and one input signal.
+   Every response of every history is the assembled matrix of the module's OWN options (element matrix, bc set,
+   bcdiagval, add_constant) and the CURRENT x — whatever other modules were built or evaluated before. *)
+Theorem C08_history_response :
+  forall g (ops : list (aop R)) i,
+    arun g astate0 (ops ++ [AResp i]) =
+    arun g astate0 ops ++
+      [option_map (fun o => asm_matrix g (ao_elmat o) (ao_bc o) (ao_bcd o) (ao_cst o) (hv_x (hview_of ops)))
+                  (nth_error (hv_opts (hview_of ops)) i)].
+Proof. exact asm_history_response. Qed.
+Print Assumptions C08_history_response.
+
+(* the options of module i are those given at its construction, for the rest of the history *)
+Theorem C08_history_options_stable :
+  forall (ops1 ops2 : list (aop R)) i o,
+    nth_error (hv_opts (hview_of ops1)) i = Some o -> nth_error (hv_opts (hview_of (ops1 ++ ops2))) i = Some o.
+Proof. exact asm_history_options_stable. Qed.
+Print Assumptions C08_history_options_stable.
+
+(* re-evaluating module i after any operations that do not re-assign x returns the same matrix *)
+Theorem C08_history_repeatable :
+  forall g (ops1 ops2 : list (aop R)) i o,
+    nth_error (hv_opts (hview_of ops1)) i = Some o ->
+    Forall (fun op => match op with ASetX _ => False | _ => True end) ops2 ->
+    last (arun g astate0 (ops1 ++ [AResp i] ++ ops2 ++ [AResp i])) None =
+    last (arun g astate0 (ops1 ++ [AResp i])) None.
+Proof. exact asm_history_repeatable. Qed.
+Print Assumptions C08_history_repeatable.
+
+(* the same over complex data (complex x for structural damping, complex Young's modulus): entry formula *)
+Theorem C08_entry_formula_complex :
+  forall g (elmat : list (list (cplx R))) bc (bcdiagval : cplx R) cst x i j,
+    let ndof := asm_ndof g elmat in
+    let N := Z.to_nat (asm_n g ndof) in
+    asm_wf g elmat bc cst x -> (0 <= i < asm_n g ndof)%Z -> (0 <= j < asm_n g ndof)%Z ->
+    nth (Z.to_nat j) (nth (Z.to_nat i) (dense (to_triples (asm_matrix g elmat bc bcdiagval cst x)) N N) []) nzero
+    = asm_spec g elmat bc bcdiagval cst x i j.
+Proof. exact asm_dense_entry_complex. Qed.
+Print Assumptions C08_entry_formula_complex.
+
+(* dtype kinds (integer / float64 / complex128): the kind of the returned matrix is above the kind of every operand
+   that contributes values (element matrix, x, bcdiagval when bc is given, add_constant), so no value is cast down
+   and the exact-arithmetic reading above applies to the stored values *)
+Theorem C08_value_kind_lossless :
+  forall ke kx bck kc,
+    let out := asm_out_kind ke kx bck kc in
+    kle ke out = true /\ kle kx out = true /\
+    (forall kb, bck = Some kb -> kle kb out = true /\ kle KFloat out = true) /\
+    (forall k, kc = Some k -> kle k out = true).
+Proof. exact asm_out_kind_lossless. Qed.
+Print Assumptions C08_value_kind_lossless.
+
+(* non-vacuity of the history statements: two modules with different bc sets on one 2x1 grid, evaluated interleaved
+   and re-evaluated after x changed *)
+Example C08_history_nonvacuous :
+  let g := {| nelx := 2; nely := 1; nelz := 0 |} in
+  let Ke : list (list Z) := [[4; -1; -2; -1]; [-1; 4; -1; -2]; [-2; -1; 4; -1]; [-1; -2; -1; 4]]%Z in
+  let o1 := {| ao_elmat := Ke; ao_bc := Some [1%Z]; ao_bcd := 7%Z; ao_cst := [] |} in
+  let o2 := {| ao_elmat := Ke; ao_bc := Some [4; 5]%Z; ao_bcd := 3%Z; ao_cst := [(0, 2, 5)%Z] |} in
+  let outs := arun g astate0 [ANew o1; ASetX [2; 3]%Z; AResp 0; ANew o2; AResp 1; AResp 0; ASetX [1; 1]%Z; AResp 0] in
+  map (option_map (fun T => map (fun ij => zentry T (fst ij) (snd ij)) [(0, 0); (1, 1); (4, 4); (0, 2)]%Z)) outs
+  = [Some [8; 7; 20; 0]; Some [8; 20; 3; 5]; Some [8; 7; 20; 0]; Some [4; 7; 8; 0]]%Z.
+Proof. vm_compute. reflexivity. Qed.
 
 (* ------------------------------------------------------------------ non-vacuity *)
 (* a concrete 2x1 grid, 4x4 integer element matrix, one constrained dof, a constant: the hypotheses of the entry
